@@ -145,9 +145,18 @@ func worker(results chan<- result, files <-chan string, wg *sync.WaitGroup) {
 		res.file = file
 		f, err := os.Open(file)
 		if err != nil {
+			// Can't hash what we can't open, report it rather than carrying on with a nil file
 			res.err = err
+			results <- res
+			continue
 		}
-		info, _ := f.Stat() //nolint: errcheck // The file is already open here so we can ignore the error
+		info, err := f.Stat()
+		if err != nil {
+			f.Close()
+			res.err = err
+			results <- res
+			continue
+		}
 		// Skip directories
 		if info.IsDir() {
 			continue
